@@ -35,7 +35,7 @@ REQUIRED = {"source.multi-dot-name": 500, "call.positional-fmt": 200, "call.keyw
             "cdxml.labelled-fragment-found-in-load_all": 100, "error.format-without-class-codec": 300,
             "error.openbabel-parser-unlisted-format": 60,
             "cell.load": 100, "cell.load-again-after-edit": 30, "cell.load-after-file-replaced": 9, "cell.loads": 60, "cell.load_all": 60, "cell.loads_all": 40, "cell.dump": 100, "cell.dumps": 20,
-            "cell.error": 40, "dump.writer-option-forwarded": 10, "order.cdxml-after-other-entry-points": 1,
+            "cell.error": 40, "dump.writer-option-forwarded": 10, "dump.positioned-stream": 20, "order.cdxml-after-other-entry-points": 1,
             "order.errors-after-other-entry-points": 1, "name-override.checked": 60, "dump.stream-left-open": 20, "dump.append-vs-truncate": 10}
 CHUNK_TIMEOUT = 600
 TECHNIQUE = "runtime monitoring: differential oracle, public entry points vs class-level codecs over the full call matrix"
@@ -331,6 +331,33 @@ def matrix(ctx, inp, text, fmt):
                         _, gerr = attempt(lambda: ml.dump(obj, tgt, "xyz", write_header=False, mode="w"))
                     if gerr is not None or out.read_text() != exp_nh:
                         ctx.violation("dump:path:xyz:writer-option-not-forwarded", case=case, target=tkind, err=repr(gerr)[:150])
+            # a stream is written at the position the caller left it at, exactly as the class method does (a buffer that is
+            # rewound and reused, a file in which room was reserved): twin streams with the same history must end up equal
+            case = inp + ("dump", "positioned-stream", oname, ofmt)
+            if ctx.want(case):
+                ctx.count("cell.dump")
+                ctx.count("dump.positioned-stream")
+                ctx.case(case, dkey=case, nontrivial=n_mols >= 2)
+                for kind in ("StringIO", "file"):
+                    for pos in (0, 7):
+                        twins = []
+                        for who in ("entry-point", "class-method"):
+                            st = io.StringIO() if kind == "StringIO" else open(ctx.tmp / f"pos-{who}-{oname}.{ofmt}", "w+")
+                            st.write("#" * 40 + "\n")
+                            st.seek(pos)
+                            _, e = attempt((lambda: ml.dump(obj, st, ofmt)) if who == "entry-point"
+                                           else (lambda: getattr(obj, f"dump_{ofmt}")(st)))
+                            where = None if e is not None or st.closed else st.tell()
+                            if not st.closed:
+                                st.seek(0)
+                                twins.append((repr(e)[:80] if e else None, where, st.read()))
+                                st.close()
+                            else:
+                                twins.append(("closed", None, None))
+                        if twins[0] != twins[1]:
+                            ctx.violation(f"dump:stream:{ofmt}:not-written-at-the-streams-position-like-the-class-method", case=case,
+                                          stream=kind, position=pos, entry_point=[twins[0][0], twins[0][1]],
+                                          class_method=[twins[1][0], twins[1][1]])
             # stream targets
             case = inp + ("dump", "stream", oname, ofmt)
             if ctx.want(case):
